@@ -54,11 +54,20 @@ func c12Scenario(a *Alpha, ns NamedSkel, focus []string, elems int) mc.Scenario 
 		installOrderRecorder(x, zh.OrderFree, &orders)
 		opts := []z.ExecOption{z.WithCtxValue("k1", "v1"), z.WithCtxValue("k2", 2)}
 		ctxStr := "k1=v1,k2=2,k3=<nil>"
-		if len(focus) <= 1 && x.Choose(2, "ctxValues") == 1 {
-			// an earlier call passes values; the call under test passes none and must see none
-			var tmp string
-			z.String().Parse("prime", &tmp, z.WithCtxValue("k1", "stale"), z.WithCtxValue("k3", "stale3"))
-			opts, ctxStr = nil, "k1=<nil>,k2=<nil>,k3=<nil>"
+		if len(focus) <= 1 {
+			switch x.Choose(4, "ctxValues") {
+			case 1:
+				// an earlier call passes values; the call under test passes none and must see none
+				var tmp string
+				z.String().Parse("prime", &tmp, z.WithCtxValue("k1", "stale"), z.WithCtxValue("k3", "stale3"))
+				opts, ctxStr = nil, "k1=<nil>,k2=<nil>,k3=<nil>"
+			case 2:
+				// defaults first, then the caller's override of the FIRST key: Get returns exactly the values passed, the later one
+				opts = []z.ExecOption{z.WithCtxValue("k1", "default"), z.WithCtxValue("k2", 2), z.WithCtxValue("k1", "v1")}
+			case 3:
+				// override of a later key, and a single value
+				opts = []z.ExecOption{z.WithCtxValue("k2", "default"), z.WithCtxValue("k1", "v1"), z.WithCtxValue("k2", 2), z.WithCtxValue("k2", 2)}
+			}
 		}
 		var real *Obs
 		var pre reflect.Value
@@ -167,7 +176,7 @@ func c12Class(w, g string) string {
 func init() {
 	Register(&Prop{
 		ID:    "C12",
-		Rule:  "one execution = one core case where every node carries recording tests and PostTransforms; ≤k focus units range over configuration {plain, required, catch, default, two tests} × PostTransform configuration {one, none, two, first errors, second errors, first returns *ZogIssue} × input {valid, missing, failing, uncoercible}, all field visit orders, both modes, with two WithCtxValue keys / with none after an earlier call that passed some; the invocation log (callback, argument value, pointer-ness, ctx.Get values, order, count), pointer identity with destination nodes and the issues are compared with the reference model; non-trivial = deviating case; distinct = distinct (skeleton, mode, expected log). plus " + layoutRule,
+		Rule:  "one execution = one core case where every node carries recording tests and PostTransforms; ≤k focus units range over configuration {plain, required, catch, default, two tests} × PostTransform configuration {one, none, two, first errors, second errors, first returns *ZogIssue} × input {valid, missing, failing, uncoercible}, all field visit orders, both modes, with two WithCtxValue keys / with none after an earlier call that passed some / with a key passed twice in one call (the later value counts); the invocation log (callback, argument value, pointer-ness, ctx.Get values, order, count), pointer identity with destination nodes and the issues are compared with the reference model; non-trivial = deviating case; distinct = distinct (skeleton, mode, expected log). plus " + layoutRule,
 		Floor: 50,
 		Bound: func(tier string) string {
 			k, e := coreK(tier)
